@@ -268,6 +268,8 @@ def rule_OR2_watcher(ctx, tier):
                 rr.ok("hb:loop " + name)
             else:
                 rr.fail("hb:early-exit:" + name, "handle_breaches can leave a loop before every (locator, uuid) pair has been handled (a `break`/`return` on the %s path)" % name, where=h.line_of(starts[0]))
+    from .rulekit import some_iff_nonempty
+    some_iff_nonempty(ctx, rr, h, "handle_breaches")
     # the late-trigger path (store_triggered_appointment): the stored appointment is given up only when the Responder
     # answered Rejected — "already on chain" (IrrevocablyResolved) is not a refusal
     stt = P.bodies.get(W + "store_triggered_appointment")
@@ -547,6 +549,9 @@ def rule_OR2_responder(ctx, tier):
         else:
             rr.fail("rb:tx", "rebroadcast sends `%s`" % og.show(a)[:120], where=rb.line_of(bb))
     _reject_or_update(ctx, rr, rb, "rb")
+    from .rulekit import some_iff_nonempty
+    for fn_ in ("check_confirmations", "handle_reorged_txs", "rebroadcast_stale_txs"):
+        some_iff_nonempty(ctx, rr, P.require(RSP + fn_), fn_)
     # reorg handler: dispute first, then penalty; rejected either -> list; else InMempoolSince(height)
     ho = P.require(RSP + "handle_reorged_txs")
     sends = sites(ho, CARRIER + "send_transaction")
@@ -673,6 +678,13 @@ def rule_OR2_gatekeeper(ctx, tier):
     if not rem or not brm or not go:
         rr.fail("g:shape", "Gatekeeper::filtered_block_connected: missing %s / HashMap::remove / batch_remove_users (%d/%d/%d)" % (SEL, len(go), len(rem), len(brm)), where=f.span)
         return rr
+    # the purge is not skipped when there is somebody to purge: from the selection, every path reaches the DB delete unless the
+    # selection was found empty
+    from .rulekit import reaches_unless
+    if all(reaches_unless(ctx, f, f.succ(g_), brm, f.return_blocks(), lambda fs: any(x[0] == "truth" and x[2] is True and has_call(x[1], "is_empty") for x in fs)) for g_ in go):
+        rr.ok("outdated users selected -> purged unless the selection is empty")
+    else:
+        rr.fail("g:purge-skipped", "Gatekeeper::filtered_block_connected can leave without purging although the selection of outdated users was not found empty: subscriptions past expiry + grace keep their users, appointments and trackers", where=f.line_of(go[0]))
     for r in rem:
         if always_reaches(f, f.succ(r), brm):
             rr.ok("memory removal -> batch_remove_users", sample={"rule": "OR2g", "after": "registered_users.remove(user)", "every path reaches": "DBM::batch_remove_users"})
